@@ -123,6 +123,9 @@ def run(ctx):
     mods = ["TomlVerif.Gen.CheckLex", "TomlVerif.Props.C18", "driver"]
     lake_build(ctx, mods, {"TomlVerif.Gen.CheckLex": "table theorems incl. LIMIT (the only configuration-dependent constant)", "TomlVerif.Props.C18": "property theorems"})
     audit(ctx, "TomlVerif.Props.C18", "TomlVerif/Props/C18.lean")
+    # the same statements for every accepted TEXT (WellKeyed derived from the parser's state-machine invariant)
+    lake_build(ctx, ["TomlVerif.Props.C18Parsed"], {"TomlVerif.Props.C18Parsed": "property theorems for every accepted text"})
+    audit(ctx, "TomlVerif.Props.C18Parsed", "TomlVerif/Props/C18Parsed.lean")
     cells = CELLS_QUICK if ctx.tier == "quick" else CELLS_ALL
     lines, meta = battery()
     rc, model, _ = run_lines(driver_path(), "c18", lines)
